@@ -1,7 +1,9 @@
 import SaModel.Lemmas.C08Loop
 /-
 C08 — agreement INCLUDING the error class.  `SameClass m s`: the table that pairs the error message `m` of the model of
-the crate (the crate's own message texts, tied to the source by SaModel/Props/ConstGenTrace.lean where they are named) with
+the crate (the model's literals; no obligation ties them to the source: the driver's `documentedError`, end of this file,
+classifies the crate's real message of every run by its fixed beginning, and `./check --wording`, SaModel/Wording/Trace.lean,
+compares the literals with the source texts as a NOTE) with
 the error `s` of the documented result `Spec.fromTypeSpec` / `Spec.mapping`.  `AgreeC a b`: both succeed with the same
 value, or both fail with a Rust error of the same class; a panic never agrees.
 Proved here: `done_to_field_c` (the field of the complete tracer agrees with the documented mapping including the error
